@@ -27,6 +27,9 @@ PREFIX = [73, 78, 68, 32, 67, 76, 79, 67, 75, 32]  # "IND CLOCK "
 
 # ------------------------------------------------------------------ virtual clock harness
 
+import threading as _real_threading
+
+
 class Crash(Exception):
     pass
 
@@ -125,16 +128,26 @@ class FakeThread:
         self.started = True
 
     def run_target(self):
+        self.runner = _real_threading.get_ident()
+        self.join_entered = _real_threading.Event()
+        self.done = _real_threading.Event()
         try:
             self.target(*self.args, **self.kwargs)
         finally:
             self.finished = True
+            self.done.set()
 
     def is_alive(self):
         return self.started and not self.finished
 
     def join(self, timeout=None):
         if self.started and not self.finished:
+            # stop() issued from another (real) thread while the worker is inside a handler: block as Thread.join does
+            if getattr(self, "runner", None) not in (None, _real_threading.get_ident()):
+                self.join_entered.set()
+                if not self.done.wait(20):
+                    raise Crash("worker did not end within 20 s of a stop() request")
+                return
             raise Crash("join() of a thread the harness has not run to completion")
 
 
@@ -263,9 +276,24 @@ def run_session(P, case):
     clk._breaker.vc = vc
     calls = []
 
+    astop = {"on": False, "thread": None, "err": None}
+
+    def stopper():
+        try:
+            clk.stop()
+        except BaseException as e:  # noqa
+            astop["err"] = type(e).__name__ + ":" + str(e)
+
     def handler(fn):
         calls.append((fn, vc.now, vc.k))
         vc.now += vc.cur()[2]
+        if astop["on"] and vc.k == len(vc.script) - 1:
+            # the other thread calls stop() while this handler is busy: stop() runs up to its join(), then the handler returns
+            th2 = FakeThread.instances[-1]
+            astop["thread"] = _real_threading.Thread(target=stopper, daemon=True)
+            astop["thread"].start()
+            if not th2.join_entered.wait(20) and astop["err"] is None:
+                vc.anomalies.append("stop() did not reach join() within 20 s")
 
     if case["handler"]:
         clk.clck_handler = handler
@@ -281,10 +309,11 @@ def run_session(P, case):
     clk.send_clck_ind = spy      # observation only: the real bound method runs inside
 
     flat, struct = [], []
-    for (gap, e_stop, script) in case["runs"]:
+    for ri_, (gap, e_stop, script) in enumerate(case["runs"]):
         vc.now += gap
         t0 = vc.now
         vc.begin(script, e_stop)
+        astop.update(on=bool(case["handler"] and script and ri_ in case.get("astop", ())), thread=None, err=None)
         P.cap.records.clear()
         del sent[:], calls[:], entries[:]
         nthreads = len(FakeThread.instances)
@@ -305,6 +334,10 @@ def run_session(P, case):
             except Exception as e:
                 crashed, exc = 2, type(e).__name__ + ":" + str(e)
         running_before_stop = clk.running
+        if astop["thread"] is not None:
+            astop["thread"].join(20)
+            if astop["thread"].is_alive() or astop["err"]:
+                vc.anomalies.append("stop() requested during a handler did not complete: %r" % (astop["err"],))
         clk.stop()
         if clk._thread is not None or clk._breaker.is_set():
             vc.anomalies.append("stop() left thread/breaker state behind")
@@ -457,7 +490,9 @@ def make_case(rng, tick, idx):
             n = min(n, 200)
         pats.append(pat)
         runs.append((rng.choice([0, 1, 1000, rng.below(10 ** 7)]), rng.choice([0, 5, rng.below(2000)]), make_script(rng, pat, n, tick)))
-    return dict(start=start, period=period, nlinks=nlinks, handler=handler, runs=runs, pats=pats, domain=True)
+    # stop() requested by the other thread while the handler of the run's last tick is busy (else: while the worker waits)
+    astop = [i for i in range(nruns) if rng.chance(1, 2)] if nruns > 1 else []
+    return dict(start=start, period=period, nlinks=nlinks, handler=handler, runs=runs, pats=pats, domain=True, astop=astop)
 
 
 def make_malformed(rng, tick):
